@@ -500,13 +500,19 @@ class Data(Container, NetCDFHDF5, Files, core.Data):
 
         array = self.array
 
-        if value is cfdm_masked or np.ma.isMA(value):
+        if isinstance(value, self.__class__):
+            # Get the value's array, with any missing values masked
+            value = value.array
+        else:
+            value = np.asanyarray(value)
+
+        if np.ma.isMA(value):
             # The data is not masked but the assignment is masking
             # elements, so turn the non-masked array into a masked
             # one.
             array = array.view(np.ma.MaskedArray)
 
-        self._set_subspace(array, indices, np.asanyarray(value))
+        self._set_subspace(array, indices, value)
 
         self._set_Array(array, copy=False)
 
